@@ -191,7 +191,8 @@ def obligations(prop="C12"):
         for qual, fn in fns:
             cname = qual.split(".")[0] if "." in qual else None
             self_sets = set().union(*[class_sets[c] for c in family(cname)]) if cname else set()
-            localsets = set()
+            localsets = {t.id for st in tree.body if isinstance(st, (ast.Assign, ast.AnnAssign)) and getattr(st, "value", None) is not None and is_set_expr(st.value, set())
+                         for t in (st.targets if isinstance(st, ast.Assign) else [st.target]) if isinstance(t, ast.Name)}     # module-level constants holding a set
             becomes_set_at = {}
             for n in ast.walk(fn):
                 if isinstance(n, ast.Assign) and len(n.targets) == 1 and isinstance(n.targets[0], ast.Attribute) and is_set_expr(n.value, set()):
